@@ -389,7 +389,7 @@ where
 
     fn with_blob_item<T, F>(&self, key: &K, f: F) -> Result<Option<T>, LibError>
     where
-        F: FnOnce(&IndexStateItem) -> Result<T, CasManagerError>,
+        F: Fn(&IndexStateItem) -> Result<T, CasManagerError>,
     {
         let Some(item) = self.index.read_state().get_item(key) else {
             return Ok(None);
@@ -399,19 +399,35 @@ where
         crate::verif::point("read.looked_up");
         match f(&item) {
             Ok(result) => Ok(Some(result)),
-            Err(cas_error) => {
-                if let Some(io_err) =
-                    cas_error.source().and_then(|s| s.downcast_ref::<std::io::Error>())
-                    && io_err.kind() == std::io::ErrorKind::NotFound
-                {
-                    return Err(LibError::BlobDataMissing {
-                        key: format!("{key:?}"),
-                        hash: item.blob_hash,
-                    });
+            Err(cas_error) if Self::is_not_found(&cas_error) => {
+                // The blob is opened without the index lock held: a concurrent overwrite or
+                // removal of this key may have deleted it in between. Look the key up again and
+                // open its blob while holding the read lock: no writer can unreference the item
+                // now, so a blob that is still missing is genuinely missing.
+                let state = self.index.read_state();
+                let Some(current) = state.get_item(key) else {
+                    return Ok(None);
+                };
+                match f(&current) {
+                    Ok(result) => Ok(Some(result)),
+                    Err(cas_error) if Self::is_not_found(&cas_error) => {
+                        Err(LibError::BlobDataMissing {
+                            key: format!("{key:?}"),
+                            hash: current.blob_hash,
+                        })
+                    }
+                    Err(cas_error) => Err(LibError::Cas(cas_error)),
                 }
-                Err(LibError::Cas(cas_error))
             }
+            Err(cas_error) => Err(LibError::Cas(cas_error)),
         }
+    }
+
+    fn is_not_found(cas_error: &CasManagerError) -> bool {
+        cas_error
+            .source()
+            .and_then(|s| s.downcast_ref::<std::io::Error>())
+            .is_some_and(|io_err| io_err.kind() == std::io::ErrorKind::NotFound)
     }
 }
 
